@@ -102,7 +102,7 @@ def gen_history(schema, ty, rnd, n, emphasis=None):
     """abstract op list; emphasis in {None, 'oneof', 'observers', 'presence'}"""
     fields = schema["types"][ty]
     mem = members(schema, ty)
-    msgf = [f for f in fields if f["kind"] == "message" and f["card"] in ("implicit", "optional", "oneof")]
+    msgf = [f for f in fields if f["kind"] == "message" and f["card"] in ("implicit", "optional", "oneof") and schema["types"][f["msg"]]]
     ops = []
     kw = []
     # a constructor may be given several members of one group: the dataclass __init__ assigns in declaration order, so the
